@@ -69,7 +69,6 @@ func c10RunQuotaPart(env *mc.Env, tree *c10Tree) {
 	res := mc.NewResult("C10", "quota", "enumeration")
 	ds := mc.NewDistinctSet()
 	caps := []int{1, 2, 4, 8, 16, 80}
-	type qc struct{ c c10QuotaCase }
 	var cases []c10QuotaCase
 	period := int64(system.DefaultCPUCFSPeriod)
 	for _, n := range caps {
